@@ -311,7 +311,7 @@ class ArffReader(Filter[Iterable[str], Iterable[Union[Dense,Sparse]]]):
             for k,v in encs.items():
                 try:
                     if v('0')!=0: nsp.add(k)
-                except: pass #pragma: no cover
+                except Exception: pass #pragma: no cover (not a bare except: a Ctrl-C must not turn into "this attribute is sparse")
 
             for line,missing in data_reader.filter(data):
                 yield LazySparse(lambda line=line:line_reader.filter(line), encs, nsp, fwd, inv, missing)
